@@ -711,7 +711,10 @@ fn order_probe() -> &'static str {
 
 fn emit_case(out: &mut Out, idx: u64, case: &PCase, ro: &RunOut, order: &str) {
     let mode = match case.mode { Mode::Ct => "ct", Mode::Mt(_) => "mt" };
-    out.line(&format!("case {idx} {mode} {order} e0 {}", ro.e0), "ok");
+    // `strict`: the `req` hooks are atomic with the enqueue (current-thread runtime, no seeded yields, no gates), so
+    // the driver keeps them where they were emitted and the FIFO order of the queue is checked against the model
+    let strict = if case.mode == Mode::Ct && case.hold > 0 && !case.yields && case.gates.is_empty() { " strict" } else { "" };
+    out.line(&format!("case {idx} {mode} {order} e0 {}{strict}", ro.e0), "ok");
     for (k, n) in case.program.nodes.iter().enumerate() {
         match n.kind {
             Kind::Input => { let v = case.init.iter().find(|(kk, _)| *kk == k as u32).map(|x| x.1).unwrap_or(0); out.line(&format!("in {k} {v}"), "ok"); }
